@@ -252,7 +252,7 @@ def run(ctx):
             res = run_cfg(ctx, f"cleaning{oi}", cfg_text(kinds, maxlen=3 if q else 4, maxrows=(1 if oi == 0 else 2) if q else 2,
                                                           cellids=((1, 2, 3, 4) if oi == 0 else (1, 4)) if q else (1, 2, 3, 4),
                                                           colsets="CS1" if (q or oi) else "CS2", maxtables=3, keyvals=(1, 2) if q else (1, 2, 3)), stdfile)
-            for doc in res.printed:
+            for doc in ctx.sample([d for d in res.printed if "kind" in d], 40000):
                 if "kind" not in doc:
                     continue
                 n += 1
